@@ -173,6 +173,7 @@ class Session:
         self.stream: List[dict] = []  # classdb + add events in order (Trace_Search)
         self.checks = 0
         self.answers: List[bool] = []
+        self.check_points: List[tuple] = []
         self.clock = Clock()
         self.tick = TickClock()
         self.ruledb = {"default": RuleDB, "forget": RuleDBForgetStrategy,
@@ -268,6 +269,9 @@ class Session:
 
     def after_hasspec(self, ans):
         self.checks += 1
+        if hasattr(self, "check_points"):
+            nxt = sum(1 for e in self.ev["queue"] if e["op"] == "next")
+            self.check_points.append((nxt, bool(ans)))
         if hasattr(self, "answers"):
             self.answers.append(bool(ans))
         if self.flavour != "forest":
